@@ -147,6 +147,7 @@ func (dm *DMap) deleteKeys(ctx context.Context, keys ...string) (int, error) {
 		members[member] = append(members[member], key)
 	}
 
+	var count int
 	for member, distributedKeys := range members {
 		if member.CompareByName(dm.s.rt.This()) {
 			for _, key := range distributedKeys {
@@ -154,6 +155,7 @@ func (dm *DMap) deleteKeys(ctx context.Context, keys ...string) (int, error) {
 					return 0, err
 				}
 			}
+			count += len(distributedKeys)
 		} else {
 			cmd := protocol.NewDel(dm.name, distributedKeys...).Command(dm.s.ctx)
 			rc := dm.s.client.Get(member.String())
@@ -161,12 +163,15 @@ func (dm *DMap) deleteKeys(ctx context.Context, keys ...string) (int, error) {
 			if err != nil {
 				return 0, protocol.ConvertError(err)
 			}
-
-			return 0, protocol.ConvertError(cmd.Err())
+			deleted, err := cmd.Result()
+			if err != nil {
+				return 0, protocol.ConvertError(err)
+			}
+			count += int(deleted)
 		}
 	}
 
-	return len(keys), nil
+	return count, nil
 }
 
 // Delete deletes the value for the given key. Delete will not return error if key doesn't exist. It's thread-safe.
